@@ -261,6 +261,56 @@ theorem inv_step_endLock (c : Cfg) (s s' : St) (e t : Nat) (h : Inv c s) (hs : s
         earlyRet := fun _ => hee }
   · simp at hs
 
+theorem inv_step_endLockPanic (c : Cfg) (s s' : St) (e t : Nat) (typ msg : Bytes) (h : Inv c s)
+    (hs : step c s (.endLockPanic e t typ msg) = some s') : Inv c s' := by
+  simp only [step] at hs
+  split at hs
+  · split at hs
+    · rename_i hen
+      simp at hs; subst hs
+      obtain ⟨k, hk⟩ : ∃ k, s.cut = some k := by
+        have := h.cutE; rw [hen] at this; exact Option.isSome_iff_exists.mp this
+      have hle := h.cutLe k hk
+      exact {
+        act := h.act, endT := h.endT, cutE := h.cutE
+        cutLe := by intro k' hk'; have := h.cutLe k' hk'; simp; omega
+        dat := by
+          have := h.dat
+          simp only [effective, hk] at this ⊢
+          rw [take_snoc_le _ _ _ hle]; exact this
+        chil := h.chil, pnd := h.pnd, early := h.early, snp := h.snp
+        dlv := by simpa [mkSnapshot] using h.dlv
+        ret := h.ret
+        same := by simpa [mkSnapshot] using h.same
+        notEnded := h.notEnded, tasks := h.tasks
+        earlyRet := fun _ => hen }
+    · rename_i he
+      have he : s.data.ended = false := by simpa using he
+      simp at hs; subst hs
+      have hi := h.idle he
+      have hee := c04_end_ended c.lim (C04.step c.lim s.data (.recordError (some (typ, msg)) []))
+      exact {
+        act := Or.inl ⟨hee, by simp [active, hi.t, hi.l, hi.sn, hi.d, hi.r]⟩
+        endT := by simp [hee]
+        cutE := by simp [hee]
+        cutLe := by simp
+        dat := by
+          have := h.dat
+          simp only [effective, hi.cut] at this ⊢
+          have hl : (s.hist ++ [Op.recordError (some (typ, msg)) []]).length = s.hist.length + 1 := by simp
+          rw [← hl, List.take_length, c04_run_snoc, c04_run_snoc, ← this]
+        chil := by have := h.chil; simp only [hi.cut] at this; simpa using this
+        pnd := h.pnd
+        early := by simp [hi.del, hi.ld]
+        snp := by simp [hi.sn]
+        dlv := by simp [hi.d]
+        ret := by simp [hi.r]
+        same := by simp [hi.del]
+        notEnded := by simp [hee]
+        tasks := by have := h.tasks; simp [hi.l, hi.sn, hi.d, hi.r] at this ⊢; exact this
+        earlyRet := fun _ => hee }
+  · simp at hs
+
 theorem inv_step_taskEnd (c : Cfg) (s s' : St) (e : Nat) (h : Inv c s) (hs : step c s (.taskEnd e) = some s') :
     Inv c s' := by
   simp only [step] at hs
@@ -420,6 +470,7 @@ theorem inv_step (c : Cfg) (s s' : St) (l : Lbl) (h : Inv c s) (hs : step c s l 
       exact ⟨h.act, h.endT, h.cutE, h.cutLe, h.dat, h.chil, h.pnd, h.early, h.snp, h.dlv, h.ret, h.same,
         h.notEnded, h.tasks, h.earlyRet⟩
   | endLock e t => exact inv_step_endLock c s s' e t h hs
+  | endLockPanic e t typ msg => exact inv_step_endLockPanic c s s' e t typ msg h hs
   | taskEnd e => exact inv_step_taskEnd c s s' e h hs
   | loadProcs e => exact inv_step_loadProcs c s s' e h hs
   | snapshot e ps => exact inv_step_snapshot c s s' e ps h hs
